@@ -7,7 +7,7 @@ pub mod ser;
 
 use simcore::{CheckSpec, Part};
 
-pub const PROPERTIES: &[&str] = &["C38"];
+pub const PROPERTIES: &[&str] = &["C38", "C19"];
 
 pub fn registry(property: &str) -> Option<CheckSpec> {
     match property {
@@ -20,7 +20,17 @@ pub fn registry(property: &str) -> Option<CheckSpec> {
                 "a year is 365.25 days (31 557 600 s) and amounts/APYs are 1e20 fixed point, as the program defines".into(),
                 "GM (market token) staking only; stake_glv differs from stake_gm only in the pricing CPI and is not exercised".into(),
                 "for a disabled controller the accrual window ends at the disabling time, as the program documents".into(),
-                "a full exit is required to succeed unless the accrual window is negative (clock regression) or the GT mint at the store would overflow its cost-growth loop".into(),
+                "a full exit is required to succeed unless the GT mint at the store would overflow its cost-growth loop".into(),
+            ],
+        }),
+        "C19" => Some(CheckSpec {
+            property: "C19",
+            level: "fault_enumeration",
+            parts: vec![Part::new(scenario::LpStaking, 4_000, 80_000)],
+            assumptions: vec![
+                "liquidity-provider program only: privileges are the global-state authority (set_claim_enabled, set_pricing_staleness, update_apy_gradient_range/sparse, update_min_stake_value, transfer_authority, create/disable_lp_token_controller), the pending authority (accept_authority) and position / token-account ownership (claim_gt, unstake_lp, stake_gm)".into(),
+                "twins are executed on a fork of the pre-state of a transaction that landed with the legitimate signer, so every twin is otherwise well-formed".into(),
+                "initialize (first caller becomes authority) and calculate_gt_reward (read-only) are permissionless by design and not twinned".into(),
             ],
         }),
         _ => None,
